@@ -1,6 +1,6 @@
 From Coq Require Import extraction.Extraction extraction.ExtrOcamlBasic.
-From TU Require Import Base Pipe_Model C05_Model C09_Model.
-Definition run := run_C09.
-Definition check := check_C09.
-Definition agree := agree_C09.
+From TU Require Import Base Pipe_Model C05_Model C09_Model C09_Hook.
+Definition run := run_C09h.
+Definition check := check_C09h.
+Definition agree := agree_C09h.
 Extraction "model.ml" run check agree.
